@@ -21,7 +21,7 @@ import (
 
 func TestMain(m *testing.M) { kit.Main(m) }
 
-const rule = "provider populations from the provider zoo (11 concrete types, 6 overlapping interfaces, named/unnamed, lazy/eager, Comp() results drawn) x 1-3 run-time built consumers with 1-4 unnamed points of kinds *T, I, []*T, []I, any, []any under wire:\"\" / func:\"Comp\" / func:\"Comp,returns=..\"; oracle = plain-reflect reference candidate set over the registered population; non-trivial = some point has >=2 admissible components and the population holds a same-shaped non-candidate; distinct by scenario shape; since rounds 7/8 also providers of named non-struct types, lazy nodes populated after ANOTHER container of the process has started, and (own process) providers announced through ioc.Register"
+const rule = "provider populations from the provider zoo (11 concrete types, 6 overlapping interfaces, named/unnamed, lazy/eager, Comp() results drawn) x 1-3 run-time built consumers with 1-4 unnamed points of kinds *T, I, []*T, []I, any, []any under wire:\"\" / func:\"Comp\" / func:\"Comp,returns=..\"; oracle = plain-reflect reference candidate set over the registered population; non-trivial = some point has >=2 admissible components and the population holds a same-shaped non-candidate; distinct by scenario shape; since rounds 7/8 also providers of named non-struct types, lazy nodes populated after ANOTHER container of the process has started, and (own process) providers announced through ioc.Register; names that differ in letter case only"
 
 var kinds = []int{0, 1, 2, 3, 4, 5, 6, 7, 8, 13, 14, 15, 17, 18, 17, 19, 19, 20, 21, 27, 28} // 17/18 = alt-package PA / PB; 19 = lazy post-processor that is also a provider; 20/21 = zero-size with qualifier / Primary
 var names = []string{"n1", "n2", "n3", "n4", "n5", "n6", "N1", "N2"}                         // names that differ in letter case only are different names
